@@ -280,6 +280,10 @@ def r06_6(ctx):
 
 
 def run(ctx):
+    # the soft-limit signal goes to the recorded owner: recorded before anything user-supplied runs (borrowed from C03)
+    from .c03 import r03_5 as _r03_5
+    from ..report import Only as _Only6
+    _r03_5(_Only6(ctx, ('_worker_pid-recorded-before-callback',), floor=1, doc='the accepting worker is recorded as the owner before the accept callback runs'))
     from .timelimits import scan_period
     scan_period(ctx, 'R06.7')
     r06_6(ctx)
